@@ -3,7 +3,7 @@
    network, induce an acyclic channel-dependency graph.  The tree is given by a checked certificate (a depth per
    unit, Side.tree_certb); every other hypothesis is one of the decidable side conditions of C02. *)
 From FV Require Import Base AddrRange RouteMap Graph Desc Build Netlist Compile Routing Emit Hw Side Check CheckProofs CdgProofs
-     ModelBase BuildProofs ModelProofs IdProofs Paths PathProofs RefOracle NxProofs NxHw HwProofs WireProofs TreeCdg.
+     ModelBase BuildProofs ModelProofs IdProofs Paths PathProofs RefOracle NxProofs NxHw HwProofs WireProofs TreeCdg FreeWalk.
 From Coq Require Import ZifyBool.
 
 Lemma in_links_iff g l : In l (map epair (link_edges g)) <-> is_link_of g l.
@@ -75,7 +75,7 @@ Qed.
 
 Definition id_deps (d : desc) (ri : rinfo) (n : netlist) (nt : net) (pairs : list (cni * cni)) : egraph :=
   flat_map (fun st => match id_num (cn_id (snd st)) with
-                      | Ok id => consecutive (t_sigs (send n nt (emit_ni d (ri_offset ri) (fst st)) (HId id)))
+                      | Ok id => consecutive (t_sigs (send_free n nt (emit_ni d (ri_offset ri) (fst st)) (HId id)))
                       | Err _ => []
                       end) pairs.
 
@@ -108,7 +108,7 @@ Proof.
   (* what the hardware does on every pair *)
   assert (Hsend : forall st, In st pairs -> exists id p,
              id_num (cn_id (snd st)) = Ok id /\ sp g (snd (attach nt (fst st))) (cn_name (snd st)) = Some p /\
-             t_sigs (send n nt (emit_ni d (ri_offset ri) (fst st)) (HId id)) = map (flow nt) (consecutive (route st)) /\
+             t_sigs (send_free n nt (emit_ni d (ri_offset ri) (fst st)) (HId id)) = map (flow nt) (consecutive (route st)) /\
              NoDup (route st) /\ Forall (is_link_of g) (consecutive (route st))).
   { intros [s0 t] Hst. destruct (Hpairs s0 t Hst) as (Hs0 & Ht & Hne). cbn [fst snd].
     assert (Hrt : is_router c (snd (attach nt s0))).
@@ -123,9 +123,9 @@ Proof.
            (fun u p0 Hu Hp0 => transitb_ok sp c t (Htr t Ht) u p0 Hu (eq_ind_r (fun gg => sp gg u (cn_name t) = Some p0) Hp0 Hcg))
            (model_signal_ok d g c ri n nt Hnt Hb Hc He (names_sepb_ok g nt H1) (single_attachb_ok g c H2) (links_typedb_ok g c H3))
            (degrees_fitb_ok c H4)
-           s0 (snd (attach nt s0)) p Hs0 Hne eq_refl (ex_intro _ r (conj Hr Hrn)) Esp) as (_ & _ & S3 & S4 & S5).
+           s0 (snd (attach nt s0)) p Hs0 Hne eq_refl (ex_intro _ r (conj Hr Hrn)) Esp) as (S1 & _ & S3 & S4 & S5).
     exists (cn_uid t), p. rewrite Hid. split; [reflexivity|]. split; [reflexivity|].
-    unfold route. cbn [fst snd]. rewrite Esp. split; [exact S3|]. split; [|exact S5].
+    unfold route. cbn [fst snd]. rewrite Esp. rewrite (send_free_eq _ _ _ _ _ _ S1). split; [exact S3|]. split; [|exact S5].
     constructor; [exact S4|].
     destruct p as [|a p']; [destruct (Cpath t Ht _ _ Esp) as (_ & _ & _ & X); congruence|].
     cbn [length]. replace (S (length p') - 1)%nat with (length p') by lia.
@@ -222,7 +222,7 @@ Qed.
 (* ------------------------------------------------------------------ source routing *)
 Definition src_deps (sp : oracle) (c : compiled) (d : desc) (ri : rinfo) (n : netlist) (nt : net) (pairs : list (cni * cni)) : egraph :=
   flat_map (fun st => match gen_route sp c (fst st) (snd st) with
-                      | Ok (_, Some ps) => consecutive (t_sigs (send n nt (emit_ni d (ri_offset ri) (fst st)) (hdr_of_word n (word_value ps))))
+                      | Ok (_, Some ps) => consecutive (t_sigs (send_free n nt (emit_ni d (ri_offset ri) (fst st)) (hdr_of_word n (word_value ps))))
                       | _ => []
                       end) pairs.
 
@@ -252,7 +252,7 @@ Proof.
                    (map route pairs)).
   unfold first_hopb in Hfh. rewrite forallb_forall in Hfh.
   assert (Hsend : forall st id ps, In st pairs -> gen_route sp c (fst st) (snd st) = Ok (id, Some ps) ->
-             t_sigs (send n nt (emit_ni d (ri_offset ri) (fst st)) (hdr_of_word n (word_value ps))) = map (flow nt) (consecutive (route st)) /\
+             t_sigs (send_free n nt (emit_ni d (ri_offset ri) (fst st)) (hdr_of_word n (word_value ps))) = map (flow nt) (consecutive (route st)) /\
              NoDup (route st) /\ Forall (is_link_of g) (consecutive (route st))).
   { intros [s0 t] id ps Hst Hgr. destruct (Hpairs s0 t Hst) as (Hs0 & Ht). cbn [fst snd] in *.
     unfold route. cbn [fst snd]. rewrite Hgr.
@@ -269,8 +269,8 @@ Proof.
            (model_signal_ok d g c ri n nt Hnt Hb Hc He (names_sepb_ok g nt H1) (single_attachb_ok g c H2) (links_typedb_ok g c H3))
            s0 id ps p Hs0 Hgr Esp
            (conj (Cpath t Ht _ _ Esp) (fun q Hq => Cmin t Ht _ _ q Esp Hq)) Hatt)
-      as (_ & _ & _ & S4 & S5 & S6).
-    auto. }
+      as (S1 & _ & _ & S4 & S5 & S6).
+    rewrite (send_free_eq _ _ _ _ _ _ S1). auto. }
   specialize (Hac ltac:(intros p a b Hp Hab; apply in_map_iff in Hp; destruct Hp as (st & <- & Hst);
                         unfold route in Hab |- *; destruct (gen_route sp c (fst st) (snd st)) as [[id [ps|]]|] eqn:Eg; try (destruct Hab);
                         destruct (Hsend st id ps Hst Eg) as (_ & _ & F); unfold route in F; rewrite Eg in F; rewrite Forall_forall in F;
